@@ -393,6 +393,13 @@ def draw_step(data, hist: History):
         first = next((lf[1] for lf in pt.leaves(gt.from_json(s["tree"])) if not isinstance(lf[1], str)), None)
         if first and not s.get("inner") and data.draw(st.integers(0, 3)) == 0:
             s["alt1"] = [c01.tok_json(t) for t in [dl.Token("", "name", f"q{i}") for i in range(len(first) - 1)] + [dl.Token("", "int", 99)]]
+            lvs_ = [lf[1] for lf in pt.leaves(gt.from_json(s["tree"]))]
+            if len(lvs_) >= 2 and not isinstance(lvs_[-1], str) and lvs_[-1] and data.draw(st.integers(0, 1)) == 0:
+                # ... and a LATER leaf that fails: the first alternative's roll-back happened on an early leaf, names were bound by the
+                # real alternative in between, the PyTree check as a whole fails
+                lvs_[-1] = list(lvs_[-1])
+                lvs_[-1][-1] = lvs_[-1][-1] + 1 if lvs_[-1][-1] != 1 else 5
+                s["tree"] = gt.to_json(gt.relabel(gt.from_json(s["tree"]), iter(lvs_)))
         # a composite over bound names: half of the time build the matching composed tree instead
         if sk == "composite":
             ps = s["structure"].split()
